@@ -4,7 +4,8 @@ import re
 
 def crash_nontrivial(tok, res):
     # anything that reached a handler: accepted logins, storms, the witnesses, watchdog passes
-    return tok[0] in ("login", "negpool", "storm", "cstorm", "race6", "stun", "watch", "stat", "wconn", "wstorm", "tear") or \
+    return tok[0] in ("login", "negpool", "storm", "cstorm", "race6", "stun", "watch", "stat", "wconn", "wstorm", "tear",
+                      "relogin", "gleave", "nstorm", "swc", "closerace", "pstorm", "routes") or \
         (tok[0] == "msg" and tok[2] in ("NewProxy", "CloseProxy", "Ping", "NatHoleVisitor", "NatHoleClient",
                                         "NatHoleReport", "NewWorkConn", "NewVisitorConn", "Login"))
 
@@ -12,6 +13,12 @@ def crash_nontrivial(tok, res):
 def crash_class(res):
     if res.startswith("stat:"):
         b = lambda n: "0" if n == 0 else ("1-9" if n < 10 else ("10-99" if n < 100 else "100+"))
+        m = re.search(r"proxyOK=(\d+),proxyRefused=(\d+).*natResp=(\d+).*workStarted=(\d+),workFrames=(\d+),udpMarker=(\d+),visitorOK=(\d+).*tearParked=(\d+)"
+                      r".*reloginParked=(\d+),gleaveParked=(\d+),wdGroupOK=(\d+),wdGroupRefused=(\d+),natSent=(\d+),swc=(\d+)", res)
+        if m:
+            return ("stat(proxyOK %s, refused %s, natResp %s, work conns taken %s, frames on them %s, udp markers %s, visitors %s, "
+                    "teardowns parked %s, logins parked in RegisterControl %s, group joins parked %s, watchdog group registrations ok %s / "
+                    "refused %s, nat-hole messages of nstorm %s, swc exchanges %s)" % tuple(b(int(x)) for x in m.groups()))
         m = re.search(r"proxyOK=(\d+),proxyRefused=(\d+).*natResp=(\d+).*workStarted=(\d+),workFrames=(\d+),udpMarker=(\d+),visitorOK=(\d+).*tearParked=(\d+)", res)
         if m:
             return ("stat(proxyOK %s, refused %s, natResp %s, work conns taken %s, frames on them %s, udp markers %s, visitors %s, "
@@ -25,7 +32,7 @@ def crash_class(res):
 
 PROP = {
         "level": "other",
-        "gens": ["LockFacts", "NilFacts"],
+        "gens": ["LockFacts", "NilFacts", "LockOrder"],
         "theorems": [
             # 1. lock discipline over regenerated facts
             "Frp.C16.all_guarded_partial", "Frp.C16.unguarded_exact", "Frp.C16.all_guarded_status", "Frp.C16.all_guarded",
@@ -33,7 +40,7 @@ PROP = {
             "Frp.C16.tables_are_shared", "Frp.C16.helpers_pinned",
             # 3a. channels
             "Frp.C16.closes_guarded", "Frp.C16.sends_guarded_partial", "Frp.C16.sends_guarded_status",
-            "Frp.C16.sends_guarded", "Frp.C16.channel_sites_present",
+            "Frp.C16.sends_guarded", "Frp.C16.channel_sites_present", "Frp.C16.sends_unguarded_exact",
             # 2. NewControl
             "Frp.C16.newcontrol_source", "Frp.C16.chanCap_le", "Frp.C16.chanCap_nonneg_partial", "Frp.C16.chanCap_negative",
             "Frp.C16.chanCap_witness", "Frp.C16.login_kills_frps", "Frp.C16.chanCap_nonneg_fixed",
@@ -52,8 +59,21 @@ PROP = {
             # 3e. RegisterWorkConn against the session's teardown
             "Frp.C16.register_recover_never_panics", "Frp.C16.teardown_offer_safe", "Frp.C16.teardown_unrecovered_dies",
             "Frp.C16.teardown_unrecovered_witness", "Frp.C16.register_recover_fact", "Frp.C16.teardown_safe_as_is",
+            # 3f. the reader of a udp proxy's user socket against the proxy's Close
+            "Frp.C16.forward_send_recovered_safe", "Frp.C16.forward_send_unrecovered_dies", "Frp.C16.forward_send_witness",
+            "Frp.C16.forward_send_fact", "Frp.C16.forward_send_status",
             # 3c. discoverConn
             "Frp.C16.discover_safe_partial", "Frp.C16.discover_witness", "Frp.C16.discover_fixed",
+            # 5. lock order (regenerated LockOrder): no cycle, no self-deadlock
+            "Frp.C16.lock_order_respected", "Frp.C16.lock_order_acyclic", "Frp.C16.no_relock", "Frp.C16.cycle_defeats_order",
+            "Frp.C16.reversed_edge_witness", "Frp.C16.self_loop_witness", "Frp.C16.lock_sites_present",
+            # 6. RegisterControl: every control that enters the table is started or closed
+            "Frp.C16.register_control_fact", "Frp.C16.every_login_answered", "Frp.C16.control_waits_on_older",
+            "Frp.C16.no_control_abandoned", "Frp.C16.superseded_skip_wedges_forever", "Frp.C16.superseded_skip_witness",
+            "Frp.C16.every_login_answered_unattended", "Frp.C16.relogin_op_answered", "Frp.C16.relogin_op_wedged",
+            # 7. StartWorkConn addresses (client)
+            "Frp.C16.startwork_crash_iff", "Frp.C16.startwork_safe_partial", "Frp.C16.startwork_witness", "Frp.C16.startwork_fixed",
+            "Frp.C16.startwork_fixed_agrees", "Frp.C16.startwork_status", "Frp.C16.startwork_resolve_fact",
             # 4. engine predicate
             "Frp.C16.holdsOn_sound", "Frp.C16.model_holdsOn_login", "Frp.C16.model_holdsOn_login_fixed",
         ],
@@ -81,7 +101,27 @@ PROP = {
                 "and feeds it the same frames. Teardown race: `tear` parks the session's worker at the verifhook gate worker.dispDone / "
                 "worker.drained / worker.beforeDone / ctl.beforeDel after dropping the control connection, offers 1-6 NewWorkConn for the run id "
                 "while it stands there, releases, offers once more after the removal (gate `none`: offers hammer the run id while the control "
-                "connection drops, 0-11 proxies widening the window); the Lean engine runs the forced schedule on the teardown model",
+                "connection drops, 0-11 proxies widening the window); the Lean engine runs the forced schedule on the teardown model. "
+                "Wedges (eng_crash_wedge.go; every wait is event-driven and bounded at 2 s, an answer the property promises that does not come "
+                "is `fail:...` = observation `wedge`, after which the child is replaced): `relogin` = session A's teardown parked at a worker.* / "
+                "ctl.beforeDel gate (or A left alive), 1-4 further logins WITH A's run id parked in RegisterControl at ctl.beforeWait, all released in "
+                "a generated order; every login must be answered, the last one with a LoginResp, a fresh login with the run id must be served and "
+                "the run id must leave the table; `gleave` = the only member of a tcp / tcpmux / http group leaves (CloseProxy or drop) while a "
+                "join stands at the <kind>group...lookedup gate between the controller lookup and the group lock; both must be answered, both "
+                "sessions must still answer a Ping, the group must be usable; `watch` = echo through the tunnel + fresh login + on that login 15 "
+                "group registrations that must each be ANSWERED (first members refused by the port manager: port not allowed / in use, by the "
+                "muxer / router: route taken, unknown multiplexer; wrong keys; joins) + leaves + Ping; `nstorm` = an xtcp proxy and 4-12 sessions "
+                "sending correctly signed non-pre-check NatHoleVisitor (each inserts a session) mixed with NatHoleClient / NatHoleReport / "
+                "pre-checks / refused visitors; `swc` = a real frpc whose tcp proxy has transport.proxyProtocolVersion none / v1 / v2 logged in "
+                "to a scripted server that hands it one work connection with StartWorkConn{SrcAddr, SrcPort, DstAddr, DstPort} (both families, "
+                "ports 0 / 65535, hosts that do not resolve) and reads back what the local service got: the Lean engine computes "
+                "Crash.handleStartWork from what net.ResolveTCPAddr made of the addresses; `cstorm` sends the same to proxies with v1 / v2; "
+                "`routes` = http / tcpmux proxies asking for SEVERAL routes in one NewProxy (domains, a subdomain, locations) of which the first, "
+                "the last or a middle one is owned by another proxy (routes registered earlier in the same message have to be given back), plain "
+                "and as group members, in shuffled order; `closerace` = 1-6 senders flood the endpoint of a tcp / tcp-group / tcpmux-group / http-group (udp: corpus, until the fix) proxy with user "
+                "traffic while the proxy is closed (CloseProxy / drop), 3-12 rounds; `pstorm` = 4-12 sessions register and close proxies of the "
+                "port-less and routed types (own and contested names / domains / groups) without waiting for the answers. Witnesses of the two known findings live in "
+                "harness/corpus/crash/",
         "trusted": COMMON_TRUST + [
             "translator translate/gen_lockfacts.go (go/ast, syntactic): regenerates Frp/Gen/LockFacts.lean on every run - every access to "
             "the 24 designated map / member-list fields with the lock mode held at that statement (Lock/RLock/Unlock/RUnlock in statement "
@@ -100,6 +140,21 @@ PROP = {
             "follow the pointer through assignments to other variables (reported as kind `other`, which the Lean judgement rejects)",
             "pinned by hand from the Go standard library (Props/C16.lean): (*net.UDPAddr).String tests its receiver for nil; "
             "(*net.UDPConn).WriteToUDP returns errMissingAddress for a nil address",
+            "translator translate/gen_lockorder.go (go/ast, syntactic): regenerates Frp/Gen/LockOrder.lean on every run - every Lock()/RLock() "
+            "call of client/ pkg/ server/ with the mutex named by its declaration (receiver / parameter / local / struct-field types resolved "
+            "syntactically; a call it cannot name is listed in `unresolved`, pinned empty), the same statement-order flow rules as gen_lockfacts, "
+            "closures taken as run on the spot unless they are the operand of `go`; calls are resolved to functions and methods of this "
+            "repository (promoted methods through embedded structs included) and their transitive acquisition sets are added as edges of the "
+            "caller's held locks. NOT followed: calls through interfaces and function values (pxy.Close() under Control.mu reaching a group "
+            "controller, plugin callbacks) - those nestings are exercised by the engine only; mutexes are identified by declaration, not by "
+            "instance (two instances of one type count as one node: a self-loop is reported, never missed). It also extracts the statements "
+            "between `svr.ctlManager.Add` and `ctl.Start()` in RegisterControl with the number of `return`s among them, and whether "
+            "HandleTCPWorkConnection discards the error of net.ResolveTCPAddr",
+            "model Frp/Model/RegCtl.lean (RegisterControl over one run id) written by hand; tied by register_control_fact (regenerated: no "
+            "return between Add and Start) and by the gated `relogin` ops whose forced schedule the Lean engine runs on the model; "
+            "Control.worker ends once the control connection is closed and is the only closer of doneCh (read from server/control.go)",
+            "pinned by hand from go-proxyproto v0.7.0 (Model/Crash.lean handleStartWork): formatVersion1 / Header.IPs assert "
+            "`.(*net.TCPAddr)` and then load `.IP`; an untyped nil fails the assertion (ErrInvalidAddress), a typed nil passes it",
             "models Frp/Model/Crash.lean (NewControl pool/capacity arithmetic, Dispatcher.readLoop step, first-message switch, discoverConn "
             "buffer, udp work-connection reader + consumer, RegisterWorkConn against the worker's teardown steps) written by hand; the teardown "
             "model is tied by register_recover_fact (the regenerated guard of the send in RegisterWorkConn) and by the gated `tear` ops; NewControl tied by newcontrol_source (source text) and by the engine's login ops; the handler tables by "
@@ -117,7 +172,7 @@ PROP = {
     }
 
 META = {
-        "engine": "lean+translate(LockFacts,NilFacts)+harness(crash)",
+        "engine": "lean+translate(LockFacts,NilFacts,LockOrder)+harness(crash)",
         "design_ref": "DESIGN.md §6 C16",
         "technique": "go/ast extraction of lock states, channel close/send guards, handler tables, NewControl's allocation and the uses of "
                      "pointer-typed message fields into Lean facts "
@@ -125,7 +180,10 @@ META = {
                      "work-connection reader, RegisterWorkConn vs. teardown) "
                      "with theorems for all inputs/histories; totality by message storms against a real frps+frpc in a sacrificial child process "
                      "with a watchdog tunnel; the peer also speaks on work and visitor connections, and session teardown is parked at verifhook gates "
-                     "while work connections arrive",
+                     "while work connections arrive; wedges: go/ast extraction of the lock-order graph (acquisitions through resolved calls) judged "
+                     "against an emitted order, a small-step model of RegisterControl's Add / WaitClosed / Start chain with liveness theorems over "
+                     "all login chains, and engine ops that demand an answer within 2 s (gated re-logins, gated group leaves, group registrations "
+                     "after refusals)",
         "text": "Partial (proof obligations 1-2 as theorems, 3-4 as exploration). Theorems over facts regenerated from the source: every one of "
                 "the 147 accesses to the 24 shared tables is made under the table's own mutex in a sufficient mode, except exactly one "
                 "(nathole HandleVisitor pre-check, known finding); every close( is once/flag/select-guarded, local, or one of 14 pinned "
@@ -147,5 +205,15 @@ META = {
                 "(hooks/C16-fix-precheck-lock.patch), Crash.poolCountIsFixed (hooks/C16-fix-poolcount.patch), Crash.discoverIsFixed "
                 "(hooks/C16-fix-discover-close.patch). Trusted: Lean kernel; the syntactic extractor; the pinned single-owner tables; the "
                 "hand-written models. Not covered: races on non-map objects, third-party libraries, resource exhaustion (memory / goroutine "
-                "growth under flood), Windows/other platforms.",
+                "growth under flood), Windows/other platforms. "
+                "Round 3 (wedges): lock ORDER over regenerated facts - 131 lock sites on 38 mutexes, 16 'acquired while held' edges through "
+                "syntactically resolved calls, every edge goes forward in the emitted order, hence no cycle and no self-deadlock "
+                "(lock_order_acyclic; a cycle defeats every order: cycle_defeats_order); RegisterControl - for ALL chains of overlapping logins "
+                "with one run id and all interleavings every login is answered and every control closes (every_login_answered, "
+                "every_login_answered_unattended, relogin_op_answered), the variant that skips Start for a superseded control wedges the run id "
+                "for ever (superseded_skip_wedges_forever, relogin_op_wedged). Two more findings of the unchanged tree, each reproduced by the "
+                "engine (harness/corpus/crash), kept behind a switch with a tested patch: Crash.startWorkAddrIsFixed (frpc: a StartWorkConn "
+                "address that does not resolve + proxyProtocolVersion => nil dereference in go-proxyproto, hooks/C16-fix-startworkconn-addr.patch) "
+                "and Crash.udpForwardSendIsFixed (frps / frpc: a user datagram read just before a udp proxy closes => send on closed channel, "
+                "hooks/C16-fix-udp-forward-send.patch). Not followed by the lock-order extractor: calls through interfaces / function values.",
     }
